@@ -133,6 +133,25 @@ CHECKS = {
               'the larger permutations); refuted obligations are replayed on the real chi code over a numeric stand-in solver (pvc/pysim.py).'),
         technique='contract-based deductive verification with an assumed (ghost) solver contract: symbolic execution of the real code, structural comparison of the solver state',
     ),
+    'C11': dict(
+        category='proof',
+        text=('Representation invariants of SBMLModel / PKPDModel / ReducedMechanisticModel over the ghost solver: (1) the protocol the '
+              'solver applies is the regimen the model reports; (2) every name / order / count table, the published-name maps, the selected '
+              'outputs and the solver\'s sensitivity request are exactly those of the myokit model the solver holds; (3) that model is the '
+              'vanilla model with exactly the reported administration applied; (4) flags and counts agree; (5) copy() equals its original on '
+              'all observable tables, satisfies (1)-(4), shares no mutable object with it, and operations on one leave the other unchanged.  '
+              'These predicates are proved to hold after every operation (set_administration direct/indirect, two kinds of regimen, four '
+              'output selections, output / parameter renaming, sensitivities on / subset / off, simulate, copy) applied to a canonical '
+              'representative of every abstract configuration (189 per program: the induction step), and after every step of every history '
+              'of length 3 (2 for the larger programs in the quick tier) from a fresh model, for three programs; with C09 (simulate acts on '
+              'what the tables say) this makes names, counts, outputs, regimen and simulation results a function of the final configuration.'),
+        design_ref='DESIGN.md section 4 (C11)',
+        note=('ODE solver assumed (ghost); the passage from per-step invariants to all histories is the standard representation-invariant '
+              'meta-argument over the finite abstract configuration space (not machine-checked); rejected calls (documented ValueError / '
+              'KeyError) must leave the predicates intact.  Three genuine defects found by this check were repaired (fix commits 9a8541f, '
+              '6fb5553, b2f7d1a); refutations are replayed on the real chi code over a numeric stand-in solver.'),
+        technique='contract-based verification of representation invariants: induction step over abstract configurations + exhaustive short histories, ghost solver state',
+    ),
     'C12': dict(
         category='proof',
         text=('Deductive proof with the numbers of measured individuals, simulated individuals, observables and time points all symbolic '
@@ -162,5 +181,6 @@ CHECK_MODULES = {
     'C06': 'contracts.c06',
     'C07': 'contracts.c07',
     'C09': 'contracts.c09',
+    'C11': 'contracts.c11',
     'C12': 'contracts.c12',
 }
